@@ -646,7 +646,9 @@ def check_c18(rep):
         stats.append({"parties": n, "topology": "star", "premature_finishes": prem, "states": r["distinct"], "delivery_orders_found": total, "used": len(behs)})
         rep.cov["states"] += r["distinct"]
         rep.cov["transitions"] += r["generated"]
-    plan = [("bfv_8_17_40,40,40", ["pk", "sk", "relin", "decrypt", "keyswitch", "pkswitch", "c2s", "s2c"]),
+    plan = [("bfv_8_17_40,40,40", ["pk", "sk", "relin", "decrypt", "keyswitch", "pkswitch", "c2s", "s2c", "c2s_s2c"]),
+            ("bfv_8_17_36,50,50", ["pk", "decrypt", "keyswitch", "c2s_s2c"]),
+            ("bgv_8_17_30,45,50,55", ["pk", "relin", "decrypt"]),
             ("bgv_8_17_40,40,40", ["pk", "sk", "relin", "decrypt", "keyswitch", "pkswitch"]),
             ("ckks_8_0_40,40,40", ["pk", "sk", "relin", "decrypt", "keyswitch", "pkswitch"])]
     if not quick:
@@ -655,7 +657,7 @@ def check_c18(rep):
     for pset, protos in plan:
         behs = []
         for proto in protos:
-            for n, lst in (star_orders if proto in ("c2s", "s2c") else orders).items():
+            for n, lst in (star_orders if proto in ("c2s", "s2c", "c2s_s2c") else orders).items():
                 sub = lst if (quick is False or len(lst) <= 60) else rng.sample(lst, 60)
                 for steps in sub:
                     behs.append({"id": len(behs), "n": n, "proto": proto, "steps": steps})
@@ -774,3 +776,86 @@ def check_c20(rep):
 
 
 REGISTRY.update({"C20": (check_c20, "model_checking")})
+
+
+# --------------------------------------------------------------------------------------------------
+# C10 RNS tools
+# --------------------------------------------------------------------------------------------------
+def check_c10(rep):
+    wd = workdir("C10")
+    raw = hcv(["c10", rep.tier, str(rep.seed)], timeout=1500).splitlines()
+    # second pass: decryption helpers on phases built here from chosen messages and noise
+    rng = random.Random(rep.seed)
+    reqs = []
+    extra_facts = []
+    for l in raw:
+        o = json.loads(l)
+        for f in o["facts"]:
+            if f["op"] != "rns_dec_request":
+                continue
+            q = [int(v) for v in f["q"]]
+            Q = 1
+            for m in q:
+                Q *= m
+            t, n = int(f["t"]), int(f["n"])
+            if Q < 64 * t:
+                continue
+            for kind in ("scaleround", "modt"):
+                vals, phase = [], [0] * (len(q) * n)
+                for j in range(n):
+                    if kind == "scaleround":
+                        m = int(f["m"][j])
+                        bound = Q // (4 * t) - 1          # |t*e_x| stays within Q/4
+                        ex = rng.choice([0, bound, -bound, rng.randrange(-bound, bound + 1)])
+                        X = ((Q * m + t // 2) // t + ex) % Q
+                        e = t * X - Q * m
+                        if abs(e) > Q // 2:               # wrapped around Q: represent relative to the nearest multiple
+                            e = t * X - Q * m - (Q * t if e > 0 else -Q * t)
+                        vals.append({"X": X, "m": m, "e": t * ((Q * m + t // 2) // t + ex) - Q * m})
+                    else:
+                        c = rng.choice([0, Q // 4, -(Q // 4), rng.randrange(-(Q // 4), Q // 4 + 1)])
+                        X = c % Q
+                        vals.append({"X": X, "c": c})
+                    for i, m_ in enumerate(q):
+                        phase[i * n + j] = X % m_
+                reqs.append({"id": len(reqs), "kind": kind, "q": q, "t": t, "n": n, "phase": phase, "vals": vals})
+    rp = os.path.join(wd, "dec_requests.ndjson")
+    open(rp, "w").write("\n".join(json.dumps({k: r[k] for k in ("id", "kind", "q", "t", "n", "phase")}) for r in reqs) + "\n")
+    outs = [json.loads(l) for l in hcv(["c10", "dec", rp], timeout=900).splitlines()] if reqs else []
+    dec_lines = []
+    for r, o in zip(reqs, outs):
+        facts = []
+        for j, v in enumerate(r["vals"]):
+            if o["panic"]:
+                facts.append({"op": "flagpanic", "q": r["q"], "what": "decrypt_" + r["kind"]})
+            elif r["kind"] == "scaleround":
+                facts.append({"op": "rns_scaleround", "q": r["q"], "t": r["t"], "X": v["X"], "m": v["m"], "e": v["e"], "out": o["out"][j]})
+            else:
+                facts.append({"op": "rns_modt", "q": r["q"], "t": r["t"], "X": v["X"], "c": v["c"], "out": o["out"][j]})
+        dec_lines.append(json.dumps({"ev": "rns", "facts": facts}))
+    lines, index = arith.convert_lines(raw + dec_lines)
+    bad, st = arith.validate(lines, wd, timeout=3000, chunks=8)
+    rep.cov["states"] = st["distinct"]
+    rep.cov["transitions"] = st["generated"]
+    rep.cov["traces_validated_against_impl"] = len(lines)
+    rep.cov["evaluations"] = len(index)
+    ops = {}
+    for v in index.values():
+        k = v.get("op", "?") + ("/" + v["variant"] if v.get("variant") else "")
+        ops[k] = ops.get(k, 0) + 1
+    rep.cov["per_routine"] = ops
+    rep.cov["distinct_nontrivial"] = len(index)
+    rep.cov["rule"] = ("events = one per coefficient and routine: CRT compose/decompose exhaustively for the bases {3,5}, {5,7,11}, {13,7}, {2,3,5,7} (single and array forms) and on boundary/random "
+                       "integers for bases of 1..4 (quick) / 1..8 (thorough) primes of 18..60 bits in mixed order; fast base conversion, m~ conversion, Montgomery reduction, fast floor, "
+                       "Shenoy-Kumaresan, divide-and-round by the last prime (coefficient and NTT form), the BGV mod-t variant (both forms), scale-and-round and mod-t decryption with noise up "
+                       "to a quarter of the modulus; TLC evaluates the integer post-condition of Rns.tla with BigNat, quotients and bounded error terms being untrusted hints")
+    for b in bad:
+        d = index.get(tuple(b), {"op": "?"})
+        rep.violation({"op": d.get("op"), "variant": d.get("variant"), "nprimes": len(d.get("q", []))}, {"event": d})
+    ks = sorted(index.keys())
+    rep.samples += [index[ks[0]], index[ks[len(ks) // 2]], index[ks[-1]]]
+    rep.assumptions += ["inputs are built from integers chosen by the harness / bin/check; residues are computed independently of the library (u128 folding, python integers)"]
+    log("[C10] %d events, %d rejected" % (len(index), len(bad)))
+
+
+REGISTRY.update({"C10": (check_c10, "model_checking")})
